@@ -51,7 +51,7 @@ def op_settings_map_all(bc):
 def _c2http_obs(c):
     return freeze([c.submit_uri, c.submit_verb, c.get_uris, c.get_verb, c.transform_get.tsteps, c.transform_get.rsteps,
                    c.transform_submit.tsteps, c.transform_submit.rsteps, c.transform_response.tsteps, c.transform_response.rsteps,
-                   c.aes_key, c.hmac_key])
+                   c.aes_key, c.hmac_key, tuple(c.beacon_keys)])
 
 
 def op_c2http_keys(bc):
@@ -104,6 +104,24 @@ def op_server_roundtrip(bc):
     return freeze([msg.headers, msg.body, rec.output, rec.id, rec.metadata])
 
 
+def op_rsa_decoder_learns_keys(bc):
+    """a decoder with the RSA key learns the session keys from a check-in; a decoder built AFTERWARDS from the same configuration
+    starts without session keys (what one decoder learned is its own state, not the configuration's)"""
+    from dissect.cobaltstrike.c2 import encrypt_metadata, BeaconMetadata
+    c = C2Http(bc, rsa_private_key=KEY)
+    md = BeaconMetadata()
+    md.magic, md.aes_rand, md.bid, md.info = 0xBEEF, b"R" * 16, 1234, b"c\tu\tp"
+    blob = encrypt_metadata(md, KEY.publickey())
+    _random.seed(5)
+    req = c.transform_get.transform(C2Data(metadata=blob), HttpRequest(method=c.get_verb, uri=c.get_uris[0], params={}, headers={}, body=b""))
+    pk = list(c.iter_recover_http(req))
+    later = C2Http(bc, rsa_private_key=KEY)
+    if later.beacon_keys.aes_key is not None or later.beacon_keys.hmac_key is not None:
+        raise AssertionError("a decoder built after another one had learned session keys starts with those keys")
+    return freeze([[(p.bid, bytes(p.aes_rand)) for p in pk], c.beacon_keys.aes_key, c.beacon_keys.hmac_key, later.beacon_keys.aes_key,
+                   later.beacon_keys.hmac_key, later.aes_key, later.hmac_key])
+
+
 def op_mutate_views(bc):
     """every top-level mutation of the four mappings is rejected"""
     out = []
@@ -130,12 +148,12 @@ def op_mutate_views(bc):
 
 
 OPS = [op_views, op_settings_map_raw, op_settings_map_all, op_c2http_keys, op_c2http_rand, op_c2http_rsa, op_client, op_profile, op_get_roundtrip, op_post_roundtrip,
-       op_server_roundtrip, op_mutate_views]
+       op_server_roundtrip, op_rsa_decoder_learns_keys, op_mutate_views]
 
 comp = Component("histories-of-one-configuration",
                  "generated complete HTTP(S) configurations (random get/post/server programs); operations: views, settings_map with every index / pretty / parse combination, C2Http with each key "
-                 "variant, client dry-run, profile generation, get/post/server transform+recover, mutation attempts on the four "
-                 "mappings; ALL sequences of length <= 2 (quick) / <= 3 (thorough) over the 12 operations plus random sequences of "
+                 "variant, client dry-run, profile generation, get/post/server transform+recover, a decoder learning session keys from a check-in, mutation attempts on the four "
+                 "mappings; ALL sequences of length <= 2 (quick) / <= 3 (thorough) over the 13 operations plus random sequences of "
                  "length 4-12 (60 quick / 1000 thorough); after every operation: views == fresh snapshot and result == result on a "
                  "fresh configuration")
 c_mut = Component("mappings-reject-mutation", "set / delete / insert / clear / update / pop on settings, raw_settings, settings_by_index, "
@@ -158,8 +176,13 @@ for ci in range(NCFG):
     snap0 = snapshot(fresh())
     expected = []
     for op in OPS:
-        expected.append(op(fresh()))
-    ok = all(r == "rejected" for r in expected[-1])
+        try:
+            expected.append(op(fresh()))
+        except Exception as ex:     # noqa: an operation that fails on a FRESH configuration is a violation by itself
+            expected.append(("raised", repr(ex)[:300]))
+            comp.case((ci, op.__name__, "fresh"), False, witness={"history": [op.__name__], "why": f"{op.__name__} raised {ex!r} on a fresh configuration"[:400],
+                                                               "config_block_hex": blk.hex()[:4000]})
+    ok = isinstance(expected[-1], list) and all(r == "rejected" for r in expected[-1])
     c_mut.case(ci, ok, witness={"config": desc, "attempts": expected[-1]})
     maxlen = 2 if TIER == "quick" else 3
     seqs = [s for n in range(1, maxlen + 1) for s in itertools.product(range(len(OPS)), repeat=n)]
